@@ -4,6 +4,7 @@ pub mod handlers;
 pub mod jgen;
 pub mod memsrv;
 pub mod msggen;
+pub mod oracle;
 pub mod report;
 pub mod rng;
 pub mod runner;
